@@ -24,7 +24,7 @@ Open Scope N_scope.
 """
 
 
-def hquery(args, timeout=1500):
+def hquery(args, timeout=6000):
     rc, out = sh([os.path.join(BIN, "h_query")] + args, cwd=REPO, env=vcheck.goenv(), timeout=timeout)
     if rc != 0:
         raise vcheck.Broken("h_query failed", out[-3000:])
@@ -187,7 +187,7 @@ def modelable(case):
     r = case["result"]["kind"]
     return (r in ("ok", "err", "panic", "crash") and case.get("clauses") is not None and case.get("nfilters", 0) == 0
             and case.get("extras", 0) == 0 and not case.get("limit_set") and case["result"].get("stage") != "plan"
-            and all(f in ["?g%d" % i for i in range(len(case["graphs"]))] for f in case.get("from") or []))
+            and all(f in (case.get("graph_names") or ["?g%d" % i for i in range(len(case["graphs"]))]) for f in case.get("from") or []))
 
 
 def evaluate(ctx, name, cases, env, shard=1500, workers=4):
